@@ -6,7 +6,7 @@ import sys
 
 from .. import format as odmlfmt
 from ..info import FORMAT_VERSION
-from .parser_utils import InvalidVersionException, ParserException, odml_tuple_export
+from .parser_utils import InvalidVersionException, ParserException
 
 LABEL_ERROR = "Error"
 LABEL_WARNING = "Warning"
@@ -158,7 +158,9 @@ class DictWriter:
                         # Custom odML tuples require special handling.
                         if attr == "values" and prop.dtype and \
                                 prop.dtype.endswith("-tuple") and prop.values:
-                            prop_dict["value"] = odml_tuple_export(prop.values)
+                            # A list of tuple strings; a single string would be split
+                            # on every comma when it is loaded again.
+                            prop_dict["value"] = ["(%s)" % ";".join(val) for val in prop.values]
                         else:
                             # Always use the arguments key attribute name when saving
                             prop_dict[i] = tag
